@@ -780,7 +780,11 @@ func (g *Gen) stmt(depth int) []Stmt {
 		}
 		return g.nestedBlockClosure(d)
 	case 40:
-		switch g.R.Intn(4) {
+		switch g.R.Intn(6) {
+		case 4:
+			return g.rawsetChain(d)
+		case 5:
+			return g.xpcallCallable(d)
 		case 0:
 			return g.goCallHandler(d)
 		case 1:
